@@ -312,9 +312,22 @@ UNSUPPORTED = {
     "cumprod": lambda t, u: tn.cumprod(t, 0), "minimum": lambda t, u: tn.minimum(t),
     "sample": lambda t, u: tn.sample(t, 2), "hadamard_sum": lambda t, u: tn.hadamard_sum([t, u]),
     "optimize": lambda t, u: tn.optimize(t, lambda x: tn.normsq(x), verbose=False, max_iter=2),
+    "transpose": lambda t, u: tn.transpose(t), "cat": lambda t, u: tn.cat([t, u], dim=1),
+    "is_tautology": lambda t, u: tn.is_tautology(t), "is_contradiction": lambda t, u: tn.is_contradiction(t),
+    "implies": lambda t, u: tn.implies(t, u), "equiv": lambda t, u: tn.equiv(t, u),
 }
 
 DOT_FAMILY = ("dot", "norm", "normsq", "dist", "relative_error", "rmse", "r_squared", "eq", "m_dot", "m_norm")
+
+def _setitem(t, key, value):
+    t = t.clone(); t[key] = value
+    return t
+
+
+def _np_setitem(a, key, value):
+    a = a.copy(); a[key] = value
+    return a
+
 
 def _set_factors(t, name):
     t = t.clone(); t.set_factors(name)
@@ -342,6 +355,14 @@ EITHER = {
     "repeat1": (lambda t, u: t.repeat(*([1] * t.dim())), lambda a, b: a),
     "repeat2": (lambda t, u: t.repeat(*([2] + [1] * (t.dim() - 1))), lambda a, b: np.tile(a, [1, 2] + [1] * (a.ndim - 2))),
     "squeeze": (lambda t, u: tn.squeeze(t), lambda a, b: np.squeeze(a)),
+    # negative positions count over all axes, the batch axis included
+    "unbind_neg": (lambda t, u: tn.unbind(t, -1)[0], lambda a, b: a[..., 0]),
+    "unbind_neg_last": (lambda t, u: tn.unbind(t, -1)[-1], lambda a, b: a[..., -1]),
+    "unsqueeze_neg": (lambda t, u: tn.unsqueeze(t, -1), lambda a, b: a[..., None]),
+    # assignment with an integer on a non-batch mode and a dense value that lacks that mode
+    "setitem_int": (lambda t, u: _setitem(t, (slice(None), 0), u.torch()[:, 0]), lambda a, b: _np_setitem(a, (slice(None), 0), b[:, 0])),
+    "setitem_int_last": (lambda t, u: _setitem(t, (Ellipsis, -1), u.torch()[..., -1]), lambda a, b: _np_setitem(a, (Ellipsis, -1), b[..., -1])),
+    "setitem_batch_int": (lambda t, u: _setitem(t, (0,), u.torch()[0]), lambda a, b: _np_setitem(a, (0,), b[0])),
     # set_factors on a tensor without Tucker factors: every mode gets the square basis as its factor, the cores stay
     "set_factors": (lambda t, u: _set_factors(t, "dct"), lambda a, b: _apply_basis(a, "dct")),
     "set_factors_legendre": (lambda t, u: _set_factors(t, "legendre"), lambda a, b: _apply_basis(a, "legendre")),
@@ -671,6 +692,20 @@ class Prop:
                 fam = "dot" if name in DOT_FAMILY else "partial" if name in ("partial", "laplacian") else "guarded"
                 mk("unsupported", {"name": name, "family": fam, "kf": "" if fam == "guarded" else "no-guard-" + fam}, a=rand_batch_json(rng, B, shape, NAMED[fm](N), maxr=2),
                    b=rand_batch_json(rng, B, shape, NAMED[fm](N), maxr=2), name=name)
+        # transpose / cat have no batch support; the accidents that made them return something: a batch CP core of shape
+        # B x I x R read as a TT core when R == B, and a concatenated mode of size 1
+        for _ in range(20 if quick else 120):
+            N = rng.randint(2, 3); B = rng.randint(2, 3)
+            shape = rshape(N, 2, 3)
+            name = rng.choice(["transpose", "cat"])
+            if name == "cat":
+                shape[0] = 1
+            for _try in range(60):
+                a = rand_batch_json(rng, B, shape, NAMED["cp"](N), maxr=3)
+                if np.array(a["modes"][0]["core"]).shape[-1] == B or name == "cat":
+                    break
+            mk("unsupported", {"name": name, "family": "guarded", "kf": "", "accident": True}, a=a,
+               b=rand_batch_json(rng, B, shape, NAMED["cp"](N), maxr=3), name=name)
         for name in sorted(EITHER):
             for _ in range(12 if quick else 90):
                 N = rng.randint(2, 3); B = rB(); shape = rshape(N)
@@ -1109,7 +1144,13 @@ class Prop:
             dense = "[" + ";".join(rows) + "]"
         cores = "%sNoCores" % pre
         rep = res.get("rep")
-        if rep is not None and rep["modes"] and not (op in SCAL and o.startswith(pre + "Smul")):
+        # `*` closes the outer bonds that a CP factor at either end of ONE operand leaves open (repo fix; the model multiplies
+        # mode by mode and keeps them open): the values are the same, the cores are not - those products are compared on the
+        # decompression only
+        def ends(bj):
+            return (bj["modes"][0]["kind"], bj["modes"][-1]["kind"])
+        closes = op == "mul" and case.get("b") is not None and any(x != y for x, y in zip(ends(case["a"]), ends(case["b"])))
+        if rep is not None and rep["modes"] and not (op in SCAL and o.startswith(pre + "Smul")) and not closes:
             if useQ:
                 cores = "(Some %s)" % coq_btensor(rep, pre, lambda x: "(%d#%d)" % (round(x * 2 ** 40), 2 ** 40), scope)
             else:
